@@ -93,6 +93,12 @@ CHECKS = {
    design_ref="DESIGN.md section 6 C10",
    note=COMMON_NOTE + "Hand-modelled: Model/Filter.v (attributes instead of real proposals; validity verdicts of key packages / leaf nodes / extensions are inputs). External-sender and new-member proposals are in the model's sender table but not generated by the correspondence run. Defect F11 found and repaired (fix: 4000eabf).",
    technique="Coq proof (stage laws => strategy agreement) + randomized conflicting-proposal correspondence"),
+ "C16": dict(
+   category="proof",
+   text="Coq theorems (Props/C16.v): the arithmetic of the observer's epoch window, translated from ExternalGroup::min_epoch_available on every run, never panics for any u64 epoch / jitter and is the saturating difference; with it the admission model lets ciphertexts of the last `jitter` epochs through, refuses older ones and always contains the current epoch; handshake admission of the observer equals a member's. Tie / oracle: generated histories with public handshake traffic; a new observer joins after every epoch (jitter unset, 0, 1, 3, 1000; tree in the extension or out of band); all observers are fed all proposals, commits and current + old ciphertexts: context / tree / roster equal the members' after every commit, ciphertext admission equals the model evaluated in Coq, reload at random points, corrupted and replayed commits refused, proposals issued by an external-sender observer accepted and committed by the members, never a panic.",
+   design_ref="DESIGN.md section 6 C16",
+   note=COMMON_NOTE + "Translated: Gen/WindowGen.v. That the observer's public state equals the members' is established on the implementation (the observer shares MessageProcessor::process_commit), not by a separate theorem. Defect F4 (window subtraction underflow) repaired (fix: c959fc8f).",
+   technique="Coq proof over translated window arithmetic + admission model; observer-vs-member differential on generated histories"),
 }
 NOT_YET = {}
 props = [json.loads(l) for l in open(os.path.join(V, "properties.jsonl"))]
